@@ -69,7 +69,8 @@ SPEC = Spec(
         "hand-written model of xconfmap.validate (VT trees), tied by exact differential on the multiset of (path, error) pairs",
         "hand-written model of otelcol.Config.Validate / PipelineConfig.Validate / pipelines.Config.Validate; Go map iteration picks which "
         "error of a phase is reported: the model returns the admissible set, the reported one is monitored for membership",
-        "translators/cmd/unmarshalhooks (go/ast): sha256 of the printed bodies of the three built-in Unmarshal(*confmap.Conf) methods",
+        "translators/cmd/unmarshalhooks (go/ast): sha256 of the printed bodies of seven Unmarshal(*confmap.Conf) methods (queuebatch.Config, otlpreceiver.Config, "
+        "otlpexporter.Config, telemetry.Config and the three v0.3.0 migration types; theorem C13_hook_bodies_as_modelled)",
         "hand-written strictness model of mapstructure decoding as configured by confmap (ErrorUnused, squash, pointers, no weak typing), "
         "tied by exact differential (ok/error) on reflect-built types; mapstructure itself is library code",
         "load model (fresh default object per id, overlay of the instance's own keys): the per-instance defaults fed to the model are the effective "
@@ -95,6 +96,7 @@ SPEC = Spec(
         "the built-in types with their own Unmarshal (regenerated list C13_builtin_custom_positions) are inside the theorems through hand-modelled fix-ups (hooksOfType: blocking alias, unwritten OTLP receiver protocols dropped, batcher reset), tied by exact differential and by regenerated body fingerprints (C13_hook_bodies_as_modelled); named exceptions: the *_url_path normalisation of the OTLP receiver and the unwritten settings below a written deprecated `batcher`",
         "the MarshalText/UnmarshalText round trip of text kinds is assumed; slices and maps are atoms in the decode model (element-wise faithfulness is checked by the harness only)",
         "feature gates at their defaults (service.AllowNoPipelines disabled)",
-        "value generators for the built-in components toggle booleans and numeric settings (always valid at decode time); string-valued settings with validation are exercised by fixed witnesses only",
+        "dec harness (internal/e2e): the value generators for the built-in components toggle booleans and numeric settings (always valid at decode time) and string-valued settings with validation are "
+        "exercised by fixed witnesses only; the load harness derives its writable settings from the configuration types (c13Candidates, text kinds from the value table - see above)",
     ],
 )
